@@ -128,6 +128,7 @@ fn main() {
         }
         Some("c12-fresh") => c12::fresh_main(args[1].parse().unwrap()),
         Some("debug-c13-seeds") => c13::debug_seeds(),
+        Some("debug-c20") => c20::debug_dependents(),
         Some("dump-mini") => { for c in c01::all_cases(Tier::Thorough) { if c.name == args[1] { println!("{}", c.source()); } } }
         Some("count-mini") => {
             for tier in [Tier::Quick, Tier::Thorough] {
@@ -155,7 +156,8 @@ fn main() {
         Some("debug-compile") => {
             let code = std::fs::read_to_string(&args[1]).unwrap();
             let mut db = pipe::new_db(&pipe::Cfg::DEFAULT);
-            let ci = pipe::set_src(&mut db, "test", &code);
+            let ed: u8 = std::env::var("VERIF_EDITION").ok().and_then(|s| s.parse().ok()).unwrap_or(0);
+            let ci = pipe::set_src_deps_opts(&mut db, "test", &code, &[], None, pipe::CrateOpts { edition: ed, experimental: ed > 0 });
             println!("{}", pipe::diagnostics(&db, &ci).0);
             match pipe::sierra(&db, &ci) { Ok(p) => println!("sierra ok: {} funcs", p.funcs.len()), Err(e) => println!("{e}") }
         }
